@@ -368,9 +368,106 @@ func otherArch(rec *hx.Recorder) {
 	}
 }
 
+// firstCallFuncs are the package's coordinate and time entry points; each is
+// applied to fixed inputs and renders its results as text.
+var firstCallFuncs = []struct {
+	name string
+	run  func() string
+}{
+	{"NewLatitude", func() string {
+		l := fit.NewLatitude(495280430)
+		return fmt.Sprint(l.Semicircles(), l.Invalid(), l.Degrees(), l.String())
+	}},
+	{"NewLongitude", func() string {
+		l := fit.NewLongitude(-703539217)
+		return fmt.Sprint(l.Semicircles(), l.Invalid(), l.Degrees(), l.String())
+	}},
+	{"NewLatitudeDegrees", func() string {
+		return fmt.Sprint(fit.NewLatitudeDegrees(41.51393).Semicircles(), fit.NewLatitudeDegrees(-89.5).Semicircles(), fit.NewLatitudeDegrees(91).Invalid())
+	}},
+	{"NewLongitudeDegrees", func() string {
+		return fmt.Sprint(fit.NewLongitudeDegrees(58.969975942745805).Semicircles(), fit.NewLongitudeDegrees(-179.99).Semicircles(), fit.NewLongitudeDegrees(0.5).Semicircles())
+	}},
+	{"Latitude.String of an invalid value", func() string {
+		return fit.NewLatitude(sentinel).String() + fmt.Sprint(fit.NewLatitude(sentinel).Degrees())
+	}},
+	{"Longitude.Degrees", func() string { return fmt.Sprint(fit.NewLongitude(1 << 30).Degrees()) }},
+	{"IsBaseTime", func() string {
+		return fmt.Sprint(fit.IsBaseTime(epoch), fit.IsBaseTime(epoch.Add(time.Second)), fit.IsBaseTime(epoch.In(time.FixedZone("Z", 3600))))
+	}},
+	{"time conversion", func() string {
+		return fmt.Sprint(fit.VerifDecodeDateTime(1000000000).Unix(), fit.VerifEncodeTime(epoch.Add(77*time.Second)))
+	}},
+}
+
+// firstCallWorker: this fresh process calls entry point k before anything
+// else of the package, then all others, and prints what each returned.
+func firstCallWorker(k int) {
+	order := []int{k}
+	for i := range firstCallFuncs {
+		if i != k {
+			order = append(order, i)
+		}
+	}
+	for _, i := range order {
+		fmt.Printf("RESULT %d %s\n", i, firstCallFuncs[i].run())
+	}
+	fmt.Println("FIRSTCALL-OK")
+}
+
+// firstCall: what an entry point returns does not depend on which of the
+// package's functions a process happens to call first. For every entry point
+// a fresh process calls it first; the results are compared with this
+// (long-running) process's.
+func firstCall(rec *hx.Recorder) {
+	self, err := os.Executable()
+	if err != nil {
+		rec.Note("first-call: " + err.Error())
+		return
+	}
+	want := make([]string, len(firstCallFuncs))
+	for i, f := range firstCallFuncs {
+		want[i] = f.run()
+	}
+	for k, f := range firstCallFuncs {
+		cmd := exec.Command(self)
+		cmd.Env = append(os.Environ(), fmt.Sprintf("VERIF_C17_WORKER=first:%d", k), "VERIF_OUT=")
+		var out, errb bytes.Buffer
+		cmd.Stdout, cmd.Stderr = &out, &errb
+		err := cmd.Run()
+		rec.Eval("first-call", int64(len(firstCallFuncs)))
+		if err != nil || !strings.Contains(out.String(), "FIRSTCALL-OK") {
+			if strings.Contains(errb.String(), "panic:") {
+				rec.Fail("first-call", "", fmt.Sprintf("a fresh process whose first call into the package is %s crashes: %s", f.name, strings.SplitN(errb.String()[strings.Index(errb.String(), "panic:"):], "\n", 2)[0]), valCase{Kind: "first-call", Value: int64(k)})
+				return
+			}
+			rec.Note(fmt.Sprintf("first-call: child %d ended with %v and no verdict", k, err))
+			return
+		}
+		for _, line := range strings.Split(out.String(), "\n") {
+			var i int
+			if n, _ := fmt.Sscanf(line, "RESULT %d ", &i); n != 1 || i < 0 || i >= len(want) {
+				continue
+			}
+			got := strings.TrimPrefix(line, fmt.Sprintf("RESULT %d ", i))
+			if got != want[i] {
+				rec.Fail("first-call", "", fmt.Sprintf("in a fresh process whose first call into the package is %s, %s returns %s; in a process that has used the package before it returns %s", f.name, firstCallFuncs[i].name, got, want[i]), valCase{Kind: "first-call", Value: int64(k)})
+				return
+			}
+		}
+	}
+	rec.NonTrivialEnum(int64(len(firstCallFuncs) * len(firstCallFuncs)))
+}
+
 func TestC17(t *testing.T) {
 	if os.Getenv("VERIF_C17_WORKER") == "1" {
 		archWorker()
+		return
+	}
+	if w := os.Getenv("VERIF_C17_WORKER"); strings.HasPrefix(w, "first:") {
+		var k int
+		fmt.Sscanf(w, "first:%d", &k)
+		firstCallWorker(k)
 		return
 	}
 	hx.Main(t, "C17", func(rec *hx.Recorder) {
@@ -380,6 +477,10 @@ func TestC17(t *testing.T) {
 			rec.Eval("replay", 1)
 			if c.Arch != "" {
 				otherArch(rec)
+				return
+			}
+			if c.Kind == "first-call" {
+				firstCall(rec)
 				return
 			}
 			if msg := checkCase(c); msg != "" {
@@ -446,6 +547,7 @@ func TestC17(t *testing.T) {
 		rec.Eval("fields", int64(2*len(vals)))
 		if hx.FirstShard() {
 			otherArch(rec)
+			firstCall(rec)
 		}
 	})
 }
